@@ -341,7 +341,13 @@ def step (s : State) : Op → State × Out
             if cur.mediaType ≠ mt then (s1, .err "DENIED") else (s1, .okDesc cur)
           else (s1, .err "DENIED")
         | none =>
-          if (checkDescData H desc data).isSome then (s1, .err "ERR")    -- wrapped with %v: un-coded
+          -- immutable-tags mode: content reachable from a tag keeps the media type it was stored with
+          let retyped : Bool := s1.immutableTags &&
+            (match alookup dig rp.manifests with
+             | some b => b.mediaType != mt && taggedRefersTo rp dig
+             | none => false)
+          if retyped then (s1, .err "DENIED")
+          else if (checkDescData H desc data).isSome then (s1, .err "ERR")    -- wrapped with %v: un-coded
           else
             let refsOpt : Option (List RefInfo) := match dec with
               | .opaque => some []
